@@ -1,0 +1,14 @@
+//go:build verif
+
+package cli
+
+import (
+	"github.com/aperturerobotics/bifrost/crypto"
+	"github.com/sirupsen/logrus"
+)
+
+// VerifLoadOrGenerateKey exposes PipeArgs.loadOrGenerateKey (the key the
+// `pipe` command runs its daemon with) to the verification harness.
+func (a *PipeArgs) VerifLoadOrGenerateKey(le *logrus.Entry) (crypto.PrivKey, error) {
+	return a.loadOrGenerateKey(le)
+}
